@@ -111,7 +111,11 @@ func (s *Server) handleService(ctx context.Context, sc *uasc.SecureChannel, reqI
 	typeID := ua.ServiceTypeID(req)
 	h, ok := s.handlers[typeID]
 	if ok {
-		resp, err = h(sc, req, reqID)
+		// Part 4, 5.6: all services other than discovery and session
+		// establishment require the token of an activated session.
+		if err = s.checkSession(typeID, req); err == nil {
+			resp, err = h(sc, req, reqID)
+		}
 	} else {
 		if typeID == 0 {
 			if s.cfg.logger != nil {
@@ -139,6 +143,33 @@ func (s *Server) handleService(ctx context.Context, sc *uasc.SecureChannel, reqI
 			s.cfg.logger.Warn("Error sending response: %s\n", err)
 		}
 	}
+}
+
+// checkSession returns a session error if the service requires an activated
+// session and the request does not carry the authentication token of one.
+func (s *Server) checkSession(typeID uint16, req ua.Request) error {
+	switch typeID {
+	case id.FindServersRequest_Encoding_DefaultBinary,
+		id.FindServersOnNetworkRequest_Encoding_DefaultBinary,
+		id.GetEndpointsRequest_Encoding_DefaultBinary,
+		id.RegisterServerRequest_Encoding_DefaultBinary,
+		id.RegisterServer2Request_Encoding_DefaultBinary,
+		id.CreateSessionRequest_Encoding_DefaultBinary,
+		id.ActivateSessionRequest_Encoding_DefaultBinary:
+		return nil
+	}
+	hdr := req.Header()
+	if hdr == nil {
+		return ua.StatusBadSessionIDInvalid
+	}
+	sess, activated := s.sb.Activated(hdr.AuthenticationToken)
+	if sess == nil {
+		return ua.StatusBadSessionIDInvalid
+	}
+	if !activated {
+		return ua.StatusBadSessionNotActivated
+	}
+	return nil
 }
 
 func responseHeader(reqID uint32, statusCode ua.StatusCode) *ua.ResponseHeader {
